@@ -509,6 +509,9 @@ def c20_scenarios(tier):
     # listener and run invoked as -f <abs config> from an unrelated directory
     for s_, t, c in [(["--stdout", "--stderr"], [], []), (["--stdout"], ["a"], ["build"])]:
         out.append({"streams": s_, "targets": t, "commands": c, "short": True, "foreign": True})
+    # filter values given twice
+    out.append({"streams": ["--stdout", "--stderr"], "targets": ["a", "a"], "commands": ["build", "build"], "short": True})
+    out.append({"streams": ["--stderr", "--stderr"], "targets": [B20, "a", B20], "commands": [], "short": True})
     # a failing member: its sibling is cancelled while it has output that no periodic flush has handled
     for s_, t, c in [(["--stdout", "--stderr"], [], []), (["--stderr"], [], ["test"]), (["--stdout"], [B20], [])]:
         out.append({"streams": s_, "targets": t, "commands": c, "short": True, "sibling_fails": True})
